@@ -62,10 +62,12 @@ Skipped(q, m) ==
 
 \* the outcome (ok, v) of query q(Z, m) is acceptable
 PropAccept(q, Z, m, ok, v) ==
+  \* Where a data file holds several records for the same element and quantity (corrections appended at the end of coskron.dat and others),
+  \* "the shipped value" is the LAST one: a later record supersedes an earlier one, as in every data file of this kind.
   LET recs == IF q \in OccQ THEN OccRecords(q, Z, m) ELSE Records(q, Z, m)
-      pos == { i \in 1..Len(recs) : FPos(F(recs[i])) }
-  IN IF pos = {} THEN ~ok
-     ELSE ok /\ \E i \in pos : FClose(v, QConv(q, F(recs[i])), Tol11, Zero)
+      n == Len(recs)
+  IN IF n = 0 \/ ~FPos(F(recs[n])) THEN ~ok
+     ELSE ok /\ FClose(v, QConv(q, F(recs[n])), Tol11, Zero)
 
 PropWant(q, Z, m) ==
   LET recs == IF q \in OccQ THEN OccRecords(q, Z, m) ELSE Records(q, Z, m)
